@@ -346,10 +346,27 @@ func (c *Check) optionStore() {
 		}
 	}
 	var roots []*ssa.Function
-	for _, n := range []string{"parseCommandLine", "generateReport", "generateRawReport", "(*webInterface).makeReport", "(*webInterface).dot", "(*webInterface).top", "(*webInterface).disasm", "(*webInterface).source", "(*webInterface).peek", "(*webInterface).stackView", "(*webInterface).saveConfig", "(*webInterface).deleteConfig", "(*webInterface).render"} {
+	for _, n := range []string{"parseCommandLine", "generateReport", "generateRawReport"} {
 		if f := c.anchorFn("C10-R3", "internal/driver", n); f != nil {
 			roots = append(roots, f)
 		}
+	}
+	// every method of the web interface (the request handlers and what they are built from),
+	// with the function literals they create
+	nWeb := 0
+	forAllPkgFuncs(p, "internal/driver", func(f *ssa.Function) {
+		if f.Parent() == nil && f.Signature.Recv() != nil && structName(f.Signature.Recv().Type()) == "driver.webInterface" && f.Synthetic == "" {
+			roots = append(roots, f)
+			nWeb++
+			forEachFuncAndAnon(f, func(g *ssa.Function) {
+				if g != f {
+					roots = append(roots, g)
+				}
+			})
+		}
+	})
+	if nWeb < 8 {
+		c.undecided("C10-R3", "anchor:webInterface", "", fmt.Sprintf("only %d methods of webInterface found", nWeb))
 	}
 	if sw := c.anchorFn("C10-R3", "internal/driver", "serveWebInterface"); sw != nil {
 		roots = append(roots, sw.AnonFuncs...)
